@@ -299,6 +299,7 @@ def _composition2musicxml(comp):
 
 def from_Note(note):
     c = Composition()
+    c.add_track(Track())
     c.add_note(note)
     return _composition2musicxml(c).toprettyxml()
 
